@@ -230,6 +230,12 @@ RECORD_TEXT = {
     "PK": "$PK\nCL=THETA(1)*EXP(ETA(1))\nV=THETA(2)*EXP(ETA(2))\n{th3}{etas}S1=V\n",
     "PRED": "$PRED\nCL=THETA(1)*EXP(ETA(1))\nV=THETA(2)*EXP(ETA(2))\n{th3}{etas}Y=CL+V*TIME+EPS(1){eps2}\n",
     "ERROR": "$ERROR\nW=F\nY=F+W*EPS(1){eps2}\n",
+    # code records with comment lines between the statements, a verbatim line, a comment directly before the last
+    # statement and an unused first statement (decoration codeCmt)
+    "PK_CMT": "$PK\nWT70=70\n; ---- structural parameters ----\nCL=THETA(1)*EXP(ETA(1)) ; clearance\n\" VERBATIM_LINE = 1\n"
+              "V=THETA(2)*EXP(ETA(2))   ; volume\n{th3}{etas}; ---- scaling ----\nS1=V\n",
+    "PRED_CMT": "$PRED\nWT70=70\n; ---- structural parameters ----\nCL=THETA(1)*EXP(ETA(1)) ; clearance\n"
+                "V=THETA(2)*EXP(ETA(2))   ; volume\n{th3}{etas}; ---- prediction ----\nY=CL+V*TIME+EPS(1){eps2}\n",
     "COVARIANCE": "$COVARIANCE\n",
     "TABLE": "$TABLE ID TIME DV NOPRINT ONEHEADER FILE=sdtab1\n",
     # an option record over two lines: comment at the end of the first, continuation starting with options that
@@ -279,7 +285,8 @@ def render_layout(kinds, rng, decor=()):
             elif k == "THETA" and th3:
                 t = MULTI["THETA_REP"][0]
         else:
-            t = RECORD_TEXT["TABLE_ML" if k == "TABLE" and table_ml else k].replace("{eps2}", eps2).replace("{etas}", etas).replace("{th3}", th3)
+            key = "TABLE_ML" if k == "TABLE" and table_ml else k + "_CMT" if k in ("PK", "PRED") and "codeCmt" in decor else k
+            t = RECORD_TEXT[key].replace("{eps2}", eps2).replace("{etas}", etas).replace("{th3}", th3)
         if k not in ("PRETEXT",):
             r = rng.random()
             if r < 0.15:
@@ -416,6 +423,72 @@ def apply_edit(m, edit, generated):
     raise core.MachineryError(f"unknown edit {edit}")
 
 
+TWO_STEP = ("CodeInsertThenEdit", "CodeRemoveThenEdit")
+
+
+def two_step_code_edit(m, edit):
+    """insert (remove) a statement at the top of the code record, regenerate the code, then change the record's last
+    statement and regenerate again.  -> (model, kind of the record, symbols whose lines the edits concern)"""
+    from pharmpy.basic import Expr
+    from pharmpy.model import Assignment
+
+    cs = m.internals.control_stream
+    kind = "PK" if cs.get_records("PK") else "PRED"
+    # (looked up on the record as read: the regenerated record is not inspected between the two edits)
+    last = [s for s in cs.get_records(kind)[0].statements if hasattr(s, "symbol")][-1]
+    sset = m.statements
+    if edit == "CodeInsertThenEdit":
+        m1 = m.replace(statements=Assignment.create(Expr.symbol("WT80"), Expr.integer(80)) + sset)
+        concerned = ["WT80"]
+    else:
+        i = [k for k, s in enumerate(sset) if getattr(s, "symbol", None) == Expr.symbol("WT70")][0]
+        m1 = m.replace(statements=sset[:i] + sset[i + 1:])
+        concerned = ["WT70"]
+    m1 = m1.update_source()
+    m1.code  # the code is regenerated between the two edits
+    sset = m1.statements
+    i = [k for k, s in enumerate(sset) if getattr(s, "symbol", None) == last.symbol][-1]
+    new = Assignment.create(last.symbol, sset[i].expression / 1000)
+    m2 = m1.replace(statements=sset[:i] + new + sset[i + 1:]).update_source()
+    return m2, kind, concerned + [last.symbol.name]
+
+
+def _same_statements(x, y):
+    """assignments compared symbol by symbol, expressions up to algebraic simplification"""
+    import sympy
+
+    if x == y:
+        return True
+    if len(x) != len(y):
+        return False
+    for a, b in zip(x, y):
+        if type(a).__name__ != type(b).__name__:
+            return False
+        if hasattr(a, "symbol"):
+            if a.symbol.name != b.symbol.name:
+                return False
+            if a.expression != b.expression and sympy.simplify(sympy.sympify(a.expression) - sympy.sympify(b.expression)) != 0:
+                return False
+        elif a != b and str(a) != str(b):
+            return False
+    return True
+
+
+def _line_lists(old, new, kind, symbols):
+    """lines of the edited code record for StreamOps.LinesHold: old as [lid, keep], new as [lid]"""
+    ot = next(t for k, t in old if k == kind)
+    nt = "".join(t for k, t in new if k == kind)
+    ids: dict = {}
+    pat = re.compile(r"^\s*(" + "|".join(re.escape(x) for x in symbols) + r")\s*=")
+    oldl = []
+    for ln in ot.split("\n"):
+        if ln.strip() == "" or ln.lstrip().startswith("$"):
+            continue
+        oldl.append([ids.setdefault(ln, len(ids) + 1), not pat.match(ln)])
+    newl = [ids.setdefault(ln, len(ids) + 1) for ln in nt.split("\n") if ln.strip() != "" and not ln.lstrip().startswith("$")]
+    return oldl, newl
+
+
 def _theta_names(m):
     rvs = m.random_variables.free_symbols
     return [p.name for p in m.parameters if p.symbol not in rvs]
@@ -458,8 +531,13 @@ def run_model_case(arg):
                 has_abbr_replace=any(k == "ABBREVIATED" and "REPLACE" in t.upper() for k, t in old))
     for edit in edits:
         rec = dict(base, edit=edit)
+        lines = None
         try:
-            m2 = apply_edit(m, edit, generated)
+            if edit in TWO_STEP:
+                m2, ckind, syms = two_step_code_edit(m, edit) if generated and "codeCmt" in base.get("decor", []) else (None, None, None)
+                lines = (ckind, syms)
+            else:
+                m2 = apply_edit(m, edit, generated)
         except core.MachineryError:
             raise
         except Exception as ex:  # the edit itself failing is judged by other properties (C04, C08): not here
@@ -482,8 +560,18 @@ def run_model_case(arg):
             return ids.setdefault(kt, len(ids) + 1)
 
         oldc, newc = _comment_lists(old, new)
+        oldl, newl = _line_lists(old, new, *lines) if lines and lines[0] else ([], [])
         trace = {"edit": edit, "old": [[k, uid((k, t))] for k, t in old], "new": [[k, uid((k, t))] for k, t in new],
-                 "oldc": oldc, "newc": newc}
+                 "oldc": oldc, "newc": newc, "oldl": oldl, "newl": newl}
+        if lines and lines[0]:
+            try:  # the second clause for two-step edits: the generated code means the in-memory statements
+                rr = read_model_from_string(new_code)
+                same = _same_statements(rr.statements, m2.statements)
+            except Exception as ex:
+                same = False
+            if not same:
+                out.append(("violation", dict(rec, outcome="reread_statements"),
+                            f"{edit}: statements of the re-read code differ from the in-memory model (or the code cannot be read)", None))
         changed = sorted({k for k, t in set(old) ^ set(new)})
         out.append(("trace", dict(rec, changed_kinds=changed), None, trace))
     return out
@@ -559,7 +647,7 @@ def validate_traces(items, v):
         rec, trace = items[tid - 1]
         rec = dict(rec, trace=trace)
         rec["outcome"] = ("unknown_edit" if not why["known"] else "frame" if not why["frame"] else
-                          "placement" if not why["placement"] else "comments")
+                          "placement" if not why["placement"] else "comments" if not why["comments"] else "lines")
         if rec["outcome"] == "unknown_edit":
             raise core.MachineryError(f"edit {trace['edit']} is not an edit of StreamOps.tla")
         oldk = {tuple(x) for x in trace["old"]}
